@@ -8,6 +8,7 @@ import (
 	"os/exec"
 	"path/filepath"
 	"runtime"
+	"strings"
 	"sync"
 	"time"
 
@@ -21,6 +22,7 @@ type Options struct {
 	Deadline  time.Time
 	LogSlots  uint
 	StopFirst bool // stop at the first unlisted violation
+	Props     []string // see DFS.Props
 }
 
 type workItem struct {
@@ -86,7 +88,7 @@ func RunSuite(s *Suite, o Options) (*Result, error) {
 		items = items[:0]
 		seen := map[[16]byte]bool{}
 		var founds []*Found
-		d := &DFS{S: s, V: v, Deadline: o.Deadline, MaxDepth: depth}
+		d := &DFS{S: s, V: v, Deadline: o.Deadline, MaxDepth: depth, Props: o.Props}
 		d.Frontier = func(p []sim.Event, k [16]byte) {
 			if !seen[k] {
 				seen[k] = true
@@ -129,7 +131,7 @@ func runWorkers(s *Suite, o Options, vpath string, items []workItem, res *Result
 		go func(w int) {
 			defer wg.Done()
 			cmd := exec.Command(self, "worker", s.Name, vpath, fmt.Sprint(o.LogSlots), fmt.Sprint(o.Deadline.UnixNano()))
-			cmd.Env = append(os.Environ(), "GOMAXPROCS=1", "GOGC=400")
+			cmd.Env = append(os.Environ(), "GOMAXPROCS=1", "GOGC=400", "VERIF_PROPS="+strings.Join(o.Props, ","))
 			cmd.Stderr = os.Stderr
 			in, _ := cmd.StdinPipe()
 			out, _ := cmd.StdoutPipe()
@@ -237,6 +239,9 @@ func WorkerMain(args []string, lookup func(name string) *Suite, classify func(*F
 				}
 			}()
 			d := &DFS{S: s, V: v, Deadline: time.Unix(0, deadline)}
+			if ps := os.Getenv("VERIF_PROPS"); ps != "" {
+				d.Props = strings.Split(ps, ",")
+			}
 			d.OnFound = func(f *Found) bool {
 				r.Founds = append(r.Founds, f)
 				// known findings do not stop the search
